@@ -41,6 +41,7 @@ type c07Scenario struct {
 	Producers [][]c07Op     `json:"producers"`
 	Consumers [][]c07Op     `json:"consumers"`
 	Fill      bool          `json:"fill_only"`
+	TakeRace  bool          `json:"take_race,omitempty"`
 
 	h         *Hist
 	probes    map[string]int
@@ -80,6 +81,26 @@ func genC07(t *simrt.Tape, tier string) Scenario {
 			ops = append(ops, c07Op{Kind: "Offer"})
 		}
 		sc.Producers = [][]c07Op{ops}
+		return sc
+	}
+	if sc.Kind == "buffered" && t.Bool(1, 8) {
+		// flavour: a few offers, then several consumers that each call a blocking Take at about the same
+		// moment and nobody touches the queue afterwards (lost wake-ups between consumers)
+		sc.Cap = 1 + t.Choose(2)
+		if sc.BufMax == 0 {
+			sc.BufMax = 2
+		}
+		n := sc.Cap + 1 + t.Choose(2)
+		var ops []c07Op
+		for i := 0; i < n; i++ {
+			ops = append(ops, c07Op{Kind: "Offer"})
+		}
+		sc.Producers = [][]c07Op{ops}
+		nk := 2 + t.Choose(maxK)
+		for c := 0; c < nk; c++ {
+			sc.Consumers = append(sc.Consumers, []c07Op{{Kind: "Take", Pause: 0}})
+		}
+		sc.TakeRace = true
 		return sc
 	}
 	np := 1 + t.Choose(maxP)
@@ -222,6 +243,11 @@ func (sc *c07Scenario) Run(s *simrt.Sim) {
 			}
 		}))
 	}
+	if sc.TakeRace {
+		// the producer fills channel + overflow first and the loader finishes its (unsuccessful) pass
+		s.WaitUntil(allDone(prods))
+		s.Sleep(3*sc.LoadDur + time.Millisecond)
+	}
 	var cons []*simrt.Thread
 	curOp := map[int]*Op{}
 	for c, ops := range sc.Consumers {
@@ -269,6 +295,35 @@ func (sc *c07Scenario) Run(s *simrt.Sim) {
 	total := 0
 	for _, ops := range sc.Producers {
 		total += len(ops)
+	}
+	// Passive phase: with channelCapacity>=1 a consumer that is blocked in a plain Take must be served by
+	// the loader without anybody calling the queue again (every Take posted a wake-up when it started,
+	// every buffered Offer posts one).
+	if sc.Kind == "buffered" && sc.Cap >= 1 && prodDone() {
+		blockedTaker := func() bool {
+			for c, th := range cons {
+				if !th.Done() && th.Blocked() && curOp[c] != nil {
+					return true
+				}
+			}
+			return false
+		}
+		// first let every consumer finish its script or come to rest in a blocking Take
+		s.WaitUntilTimeout(func() bool {
+			for c, th := range cons {
+				if !th.Done() && !(th.Blocked() && curOp[c] != nil) {
+					return false
+				}
+			}
+			return true
+		}, 5*time.Second)
+		if blockedTaker() && remaining() > 0 {
+			sc.probes["passive-drain-phase"]++
+			if !s.WaitUntilTimeout(func() bool { return !blockedTaker() || remaining() == 0 }, 60*(sc.LoadDur+sc.FreeDur)+time.Second) {
+				sc.extra = append(sc.extra, Violation{Clause: "stranded", Fingerprint: "buffered:item-inside-while-a-Take-is-blocked",
+					Detail: fmt.Sprintf("%d accepted value(s) stayed inside although a consumer is blocked in Take() (capacity %d): the loader was never woken; %s", remaining(), sc.Cap, histString(h))})
+			}
+		}
 	}
 	// Settle: keep receiving (fairly scheduled) until every accepted value came out. While producers
 	// are still working through their pauses only virtual time bounds the loop; once they are done
@@ -343,6 +398,7 @@ func (sc *c07Scenario) Check(res *simrt.Result) []Violation {
 	if len(vs) > 0 {
 		return dedupe(vs) // after a panic the counting oracles are meaningless
 	}
+	vs = append(vs, sc.extra...)
 	bound := sc.Cap
 	if sc.BufMax > 0 {
 		bound += sc.BufMax
